@@ -295,6 +295,12 @@ struct Run
         fresh.set_use_actual_detector_boundaries(adb);
         apply_switches(fresh);
         fresh.set_up(geo[gg].pdi, img[ii]);
+        // calculate_proj_matrix_elems_for_one_bin has one more error() ("need sampling distance in axial direction to be an
+        // integer multiple of the voxel size", tested to 1e-3 per segment, while set_up tests to 1e-2): ask for one row per segment
+        ProjMatrixElemsForOneBin row;
+        const ProjDataInfo& p = *geo[gg].pdi;
+        for (int sg = p.get_min_segment_num(); sg <= p.get_max_segment_num(); ++sg)
+          fresh.get_proj_matrix_elems_for_one_bin(row, Bin(sg, p.get_min_view_num(), p.get_min_axial_pos_num(sg), 0, 0));
       }
     catch (const stir_verif::AssertionFailure&)
       {
